@@ -79,7 +79,7 @@ def main():
                 rc, out = sh(["/venv/bin/python", "-m", "vf.run", chk, "--tier", a.tier], cwd=HERE, env=env2, timeout=7200)
                 viol = [line for line in out.splitlines() if line.startswith("VIOLATION")]
                 buckets = [line.strip()[:200] for line in out.splitlines() if line.startswith("  bucket") or line.startswith("  replay")]
-                meta["checks_run"][f"{chk}@seed{seed}"] = {"exit": rc, "violations": len(viol), "buckets": buckets[:6], "wall_s": round(time.time() - t0, 1),
+                meta["checks_run"][f"{chk}@seed{seed}" + ("" if a.tier == "quick" else "-" + a.tier)] = {"exit": rc, "violations": len(viol), "buckets": buckets[:6], "wall_s": round(time.time() - t0, 1),
                                                             "caught": rc == 1 and bool(viol)}
                 shutil.rmtree(evdir, ignore_errors=True)
         print(json.dumps(meta, indent=1))
